@@ -1,40 +1,8 @@
-import BvaProofs.Bits
+import BvaProofs.Base
 import BvaModel.Step
 /-! `get` reads exactly the abstract bit -/
 namespace Bva
 variable {w : Nat}
-
-theorem and_one_ne_zero (x : BitVec w) (k : Nat) :
-    ((x >>> k) &&& 1#w != 0#w) = x.getLsbD k := by
-  by_cases hw : w = 0
-  · subst hw; simp [BitVec.eq_nil x]
-  have h1 : ((x >>> k) &&& 1#w) = if x.getLsbD k then 1#w else 0#w := by
-    apply BitVec.eq_of_getLsbD_eq
-    intro i hi
-    simp only [BitVec.getLsbD_and, BitVec.getLsbD_ushiftRight, BitVec.getLsbD_one]
-    by_cases h0 : i = 0
-    · subst h0; by_cases hb : x.getLsbD k <;> simp [hb]
-    · by_cases hb : x.getLsbD k <;> simp [hb, h0]
-  rw [h1]
-  by_cases hb : x.getLsbD k
-  · simp [hb]; omega
-  · simp [hb]
-
-theorem Raw.get_eq_bitAt (s : Raw w) (i : Nat) : s.get i = bitAt s.data i := by
-  unfold Raw.get bitAt; exact and_one_ne_zero _ _
-
-theorem bitAt_oob (ws : Array (BitVec w)) (i : Nat) (h : ws.size * w ≤ i) (hw : 0 < w) : bitAt ws i = false := by
-  unfold bitAt wd
-  have : ws.size ≤ i / w := (Nat.le_div_iff_mul_le hw).mpr h
-  simp [Array.getD_eq_getD_getElem?, Array.getElem?_eq_none this]
-
-theorem Raw.abs_bit (s : Raw w) (i : Nat) (hw : 0 < w) : s.abs.bit i = bitAt s.data i := by
-  unfold Raw.abs BV.bit valAll
-  simp only
-  rw [testBit_valUpTo hw]
-  by_cases h : i < w * s.data.size
-  · simp [h]
-  · simp [h]; rw [bitAt_oob _ _ (by rw [Nat.mul_comm]; omega) hw]
 
 /-- word widths of the vector are positive (true of every Rust instantiation) -/
 def Vec.WPos : Vec → Prop
